@@ -35,15 +35,20 @@ Record peer_state := {
   t_mat : bool; t_mesh : bool; t_audio : bool;
   t_promo : bool;
   (* assets: content digests by uuid, unread asset events per class reader *)
-  a_materials : gmap uuid N;
-  a_mat_events : list (uuid * N);        (* events not yet readable (queued, flushed in Last) *)
-  a_mat_ready : list (uuid * N);         (* readable by the react system *)
+  a_store : gmap N N;                    (* Assets<T> by akey kind uuid: content *)
+  a_events : list (akind * uuid);        (* asset events queued in Assets<T> (flushed in Last) *)
+  a_ready : list (akind * uuid);         (* asset events readable by the react systems *)
+  h_cache : gmap N N;                    (* what this peer's HTTP endpoint serves, by akey (KClass c) uuid *)
+  d_pending : list (aclass * uuid * peer);   (* downloads started and not yet applied *)
+  n_promote_events : list peer;          (* unread PromoteToHostEvents *)
+  p_app_cmds : list (N * cmd);           (* commands the application systems SApp k issue in the next frame they run *)
   (* net *)
   n_setup : bool;
   n_srv_transport : option tick;          (* NetcodeServerTransport, with its added tick *)
   n_cli_transport : option (peer * tick); (* NetcodeClientTransport towards a host *)
   n_clients : list peer;                  (* RenetServer::clients_id() *)
   n_srv_events : list (bool * peer);      (* unread ServerEvents: (true = connected, client) *)
+  n_kicked : list peer;                   (* server.disconnect(c) called: ClientDisconnected is emitted by the next renet update *)
   n_status : renet_status;                (* RenetClient status *)
   n_sticky_disconnect : bool;             (* RenetClient::disconnect() was called on this object *)
   n_inbox : gmap peer (list msg);         (* per sender: reliable ordered channel towards this peer *)
@@ -61,20 +66,22 @@ Record peer_state := {
 #[export] Instance eta_peer_state : Settable _ := settable! Build_peer_state
   <p_id; p_sync_types; p_registry; p_order; p_ents; p_reserved; p_next_ent; p_tick; p_last_run; p_cond_bit;
    t_u2e; t_e2u; t_queue; t_ctok; t_htok; t_mat; t_mesh; t_audio; t_promo;
-   a_materials; a_mat_events; a_mat_ready;
-   n_setup; n_srv_transport; n_cli_transport; n_clients; n_srv_events; n_status; n_sticky_disconnect; n_inbox;
+   a_store; a_events; a_ready; h_cache; d_pending; n_promote_events; p_app_cmds;
+   n_setup; n_srv_transport; n_cli_transport; n_clients; n_srv_events; n_kicked; n_status; n_sticky_disconnect; n_inbox;
    s_server; s_client; s_next_server; s_next_client; p_cmdq; p_out; p_finished_events; p_panic>.
 
 #[export] Instance eta_entity : Settable _ := settable! Build_entity
   <en_mark; en_sync; en_sync_added; en_comps; en_excl; en_parent; en_children>.
 
+(* Every App holds the engine's default StandardMaterial under a uuid id (asset id 0 here,
+   perceptual_roughness 0.5): it is part of every snapshot when materials are enabled. *)
 Definition init_peer (id : peer) (sync_types registry : list tyid) (order : list sysid) : peer_state :=
   {| p_id := id; p_sync_types := sync_types; p_registry := registry; p_order := order;
      p_ents := ∅; p_reserved := []; p_next_ent := 4294967296; p_tick := 1; p_last_run := ∅; p_cond_bit := ∅;
      t_u2e := ∅; t_e2u := ∅; t_queue := []; t_ctok := []; t_htok := [];
      t_mat := false; t_mesh := false; t_audio := false; t_promo := false;
-     a_materials := ∅; a_mat_events := []; a_mat_ready := [];
-     n_setup := false; n_srv_transport := None; n_cli_transport := None; n_clients := []; n_srv_events := [];
+     a_store := {[ akey KMaterial 0 := 500 ]}; a_events := []; a_ready := []; h_cache := ∅; d_pending := []; n_promote_events := []; p_app_cmds := [];
+     n_setup := false; n_srv_transport := None; n_cli_transport := None; n_clients := []; n_srv_events := []; n_kicked := [];
      n_status := RDisconnected; n_sticky_disconnect := false; n_inbox := ∅;
      s_server := SrvDisconnected; s_client := CliDisconnected; s_next_server := None; s_next_client := None;
      p_cmdq := ∅; p_out := []; p_finished_events := 0; p_panic := None |}.
@@ -136,6 +143,8 @@ Definition put_comp (now : tick) (t : tyid) (v : value) (en : entity) : entity :
 Definition has_comp (en : entity) (t : tyid) : bool := is_some (en_comps en !! t).
 
 Definition ents_list (pr : peer_state) : list (ent * entity) := map_to_list (p_ents pr).
+Definition sync_is (u : uuid) (en : entity) : bool :=
+  match en_sync en with Some v => v =? u | None => false end.
 
 (* ---------- hierarchy (bevy_hierarchy add_child / set_parent) --------------------------- *)
 
@@ -238,14 +247,45 @@ Definition snapshot_parent_msgs (pr : peer_state) (e : ent) (en : entity) : list
   | _, _ => []
   end.
 
-Definition snapshot_material_msgs (pr : peer_state) : list msg :=
-  if t_mat pr then (fun '(a, v) => MMaterial a v) <$> map_to_list (a_materials pr) else [].
+(* check_images, check_materials, check_meshes, check_audios: every uuid asset of an enabled
+   class; the three URL classes are (re-)served by the call *)
+Definition assets_of_kind (pr : peer_state) (k : akind) : list (uuid * N) :=
+  omap (fun '(key, v) => if key `mod` 4 =? kind_num k then Some (key `div` 4, v) else None) (map_to_list (a_store pr)).
 
-Definition build_full_sync (pr : peer_state) : list msg :=
+Definition class_enabled (pr : peer_state) (k : akind) : bool :=
+  match k with
+  | KMaterial | KClass AImage => t_mat pr
+  | KClass AMesh => t_mesh pr
+  | KClass AAudio => t_audio pr
+  end.
+
+Definition serve_all (pr : peer_state) (c : aclass) : peer_state * list msg :=
+  if class_enabled pr (KClass c) then
+    let l := assets_of_kind pr (KClass c) in
+    (pr <| h_cache := foldl (fun h '(a, v) => <[akey (KClass c) a := v]> h) (h_cache pr) l |>,
+     (fun '(a, _) => MAsset c a (p_id pr)) <$> l)
+  else (pr, []).
+
+Definition snapshot_material_msgs (pr : peer_state) : list msg :=
+  if t_mat pr then (fun '(a, v) => MMaterial a v) <$> assets_of_kind pr KMaterial else [].
+
+Definition build_full_sync (pr : peer_state) : peer_state * list msg :=
   let es := ents_list pr in
-  concat ((fun '(e, en) => snapshot_entity_msgs pr e en) <$> es)
-  ++ concat ((fun '(e, en) => snapshot_parent_msgs pr e en) <$> es)
-  ++ snapshot_material_msgs pr.
+  let m1 := concat ((fun '(e, en) => snapshot_entity_msgs pr e en) <$> es) in
+  let m2 := concat ((fun '(e, en) => snapshot_parent_msgs pr e en) <$> es) in
+  let '(pr, mi) := serve_all pr AImage in
+  let mm := snapshot_material_msgs pr in
+  let '(pr, me) := serve_all pr AMesh in
+  let '(pr, ma) := serve_all pr AAudio in
+  (pr, m1 ++ m2 ++ mi ++ mm ++ me ++ ma).
+
+(* SyncAssetTransfer::request: nothing happens if this peer's *mesh* cache holds the id *)
+Definition request_asset (pr : peer_state) (c : aclass) (a : uuid) (owner : peer) : peer_state :=
+  if is_some (h_cache pr !! akey (KClass AMesh) a) then pr
+  else pr <| d_pending := d_pending pr ++ [(c, a, owner)] |>.
+
+Definition insert_asset (pr : peer_state) (k : akind) (a : uuid) (v : N) : peer_state :=
+  pr <| a_store := <[akey k a := v]> (a_store pr) |> <| a_events := a_events pr ++ [(k, a)] |>.
 
 (* ---------- deferred commands ------------------------------------------------------------ *)
 
@@ -255,6 +295,11 @@ Definition apply_cmd (pr : peer_state) (c : cmd) : peer_state :=
       pr <| p_ents := <[e := new_entity <| en_sync := Some u |> <| en_sync_added := p_tick pr |>]> (p_ents pr) |>
          <| p_reserved := removeN e (p_reserved pr) |>
   | CDespawn e | CAppDespawn e => pr <| p_ents := delete e (p_ents pr) |>
+  | CAppDespawnUuid u =>
+      match filter (fun x : ent * entity => sync_is u x.2) (ents_list pr) with
+      | (e, _) :: _ => pr <| p_ents := delete e (p_ents pr) |>
+      | [] => pr
+      end
   | CInsertSync e u =>
       (* remove::<SyncMark>().try_insert(SyncEntity{uuid}): nothing happens if e is gone *)
       upd_ent pr e (fun en => en <| en_mark := None |> <| en_sync := Some u |> <| en_sync_added := p_tick pr |>)
@@ -281,17 +326,20 @@ Definition apply_cmd (pr : peer_state) (c : cmd) : peer_state :=
       else if parent_differs pr c p then set_parent_twice pr c p else pr
   | CApplyMaterial from a v =>
       let pr := pr <| t_htok := a :: removeN a (t_htok pr) |> in
-      let ev := (a, v) in
-      let pr := pr <| a_materials := <[a := v]> (a_materials pr) |> <| a_mat_events := a_mat_events pr ++ [ev] |> in
+      let pr := insert_asset pr KMaterial a v in
       match from with
       | Some c => relay_except pr c (MMaterial a v)
       | None => pr
       end
   | CRelay from m => relay_except pr from m
   | CSendInitialSync to =>
-      let pr := foldl (fun pr m => send pr to m) pr (build_full_sync pr) in
+      let '(pr, ms) := build_full_sync pr in
+      let pr := foldl (fun pr m => send pr to m) pr ms in
       send pr to MFinInit
-  | CRequestInitialSync => send_up pr MReqInit
+  | CRequestInitialSync =>
+      (* the closure also builds a full sync (serving this peer's assets) that is never sent *)
+      let '(pr, _) := build_full_sync pr in
+      send_up pr MReqInit
   | CFixInsert e companions =>
       (* try_insert of each companion: nothing happens if e is gone *)
       let now := p_tick pr in
@@ -406,16 +454,39 @@ Definition react_on_changed_components (server : bool) (pr : peer_state) : peer_
   let pr := pr <| t_queue := [] |> in
   foldl (fun pr '(u, t, v) => if server then broadcast pr (MComp u t v) else send_up pr (MComp u t v)) pr q.
 
-Definition react_on_changed_materials (server : bool) (pr : peer_state) : peer_state :=
-  let evs := a_mat_ready pr in
-  let pr := pr <| a_mat_ready := [] |> in
-  foldl (fun pr '(a, _) =>
-           match a_materials pr !! a with
+(* react_on_changed_materials / _images / _meshes / _audios *)
+Definition react_on_changed_assets (server : bool) (k : akind) (pr : peer_state) : peer_state :=
+  let mine := filter (fun x : akind * uuid => kind_num x.1 =? kind_num k) (a_ready pr) in
+  let pr := pr <| a_ready := filter (fun x : akind * uuid => negb (kind_num x.1 =? kind_num k)) (a_ready pr) |> in
+  foldl (fun pr '(_, a) =>
+           match a_store pr !! akey k a with
            | None => pr
            | Some v =>
                if memN a (t_htok pr) then pr <| t_htok := removeN a (t_htok pr) |>
-               else if server then broadcast pr (MMaterial a v) else send_up pr (MMaterial a v)
-           end) pr evs.
+               else
+                 match k with
+                 | KMaterial => if server then broadcast pr (MMaterial a v) else send_up pr (MMaterial a v)
+                 | KClass c =>
+                     let pr := pr <| h_cache := <[akey k a := v]> (h_cache pr) |> in
+                     let m := MAsset c a (p_id pr) in
+                     if server then broadcast pr m else send_up pr m
+                 end
+           end) pr mine.
+
+(* process_mesh_assets / process_image_assets / process_audio_assets: downloads that completed
+   (oracle: class, id, content) are inserted into Assets<T> with a handle token *)
+Definition process_assets (pr : peer_state) (c : aclass) (done : list (aclass * uuid * N)) : peer_state :=
+  foldl (fun pr '(c', a, v) =>
+           if kind_num (KClass c') =? kind_num (KClass c) then
+             let pr := pr <| t_htok := a :: removeN a (t_htok pr) |> in
+             let pr := pr <| d_pending := filter (fun x : aclass * uuid * peer => negb ((kind_num (KClass x.1.1) =? kind_num (KClass c)) && (x.1.2 =? a))) (d_pending pr) |> in
+             insert_asset pr (KClass c) a v
+           else pr) pr done.
+
+(* promote_to_host_event_reader *)
+Definition promote_reader (pr : peer_state) : peer_state :=
+  let evs := n_promote_events pr in
+  foldl (fun pr c => send pr c MPromote) (pr <| n_promote_events := [] |>) evs.
 
 (* ---------- systems: bundle_fix ----------------------------------------------------------- *)
 
@@ -457,10 +528,12 @@ Definition server_received (pr : peer_state) (k : N) (from : peer) (m : msg) : p
       | None => pr
       end
   | MMaterial a v => push_cmd pr k (CApplyMaterial (Some from) a v)
-  | MAsset _ _ _ _ => push_cmd pr k (CRelay from m)
+  | MAsset c a owner => push_cmd (request_asset pr c a owner) k (CRelay from m)
   | MPromote => pr
   | MNewHost h =>
-      (* server.disconnect(client_id): the connection leaves clients_id() at the next renet update *)
+      (* server.disconnect(client_id): the connection leaves clients_id() at once, its
+         ClientDisconnected event is produced by the next renet update *)
+      let pr := pr <| n_clients := removeN from (n_clients pr) |> <| n_kicked := n_kicked pr ++ [from] |> in
       let pr := relay_except pr from (MNewHost h) in
       push_cmd pr k (CStartClientTo h true)
   | MReqInit => push_cmd pr k (CSendInitialSync from)
@@ -497,7 +570,7 @@ Definition client_received (pr : peer_state) (k : N) (m : msg) : peer_state :=
       | None => pr
       end
   | MMaterial a v => push_cmd pr k (CApplyMaterial None a v)
-  | MAsset _ _ _ _ => pr
+  | MAsset c a owner => request_asset pr c a owner
   | MPromote => push_cmd pr k CStartServer
   | MNewHost h =>
       (* client.disconnect(); cmd.remove_resource; cmd.insert_resource(create_client); flag := true *)
@@ -579,9 +652,11 @@ Definition client_gate (pr : peer_state) : bool :=
 (* what the frame's oracle tells one frame of one peer *)
 Record frame_oracle := {
   fo_conn_events : list (bool * peer);   (* host: ServerEvents produced by this frame's renet update *)
+  fo_clients : list peer;                (* host: RenetServer::clients_id() after this frame's renet update *)
   fo_status : option renet_status;       (* client: RenetClient status after this frame's renet update *)
   fo_srv_poll : list peer;               (* host poll: sender of each message received, in order *)
   fo_cli_poll : nat;                     (* client poll: number of messages received *)
+  fo_downloads : list (aclass * uuid * N);   (* downloads whose payload the process_* systems apply in this frame *)
 }.
 
 Definition run_body (pr : peer_state) (s : sysid) (o : frame_oracle) : peer_state :=
@@ -605,9 +680,11 @@ Definition run_body (pr : peer_state) (s : sysid) (o : frame_oracle) : peer_stat
     | SSrvCreated => entity_created true pr k last
     | SSrvParented => entity_parented_server pr last
     | SSrvReact => react_on_changed_components true pr
-    | SSrvMat => react_on_changed_materials true pr
-    | SSrvImg | SSrvMesh | SSrvAudio => pr
-    | SSrvPromote => pr
+    | SSrvMat => react_on_changed_assets true KMaterial pr
+    | SSrvImg => react_on_changed_assets true (KClass AImage) pr
+    | SSrvMesh => react_on_changed_assets true (KClass AMesh) pr
+    | SSrvAudio => react_on_changed_assets true (KClass AAudio) pr
+    | SSrvPromote => promote_reader pr
     | SSrvClientConnected => client_connected pr k
     | SSrvPoll => server_poll pr k (fo_srv_poll o)
     | SCliConnecting => pr <| s_next_client := Some CliConnecting |>
@@ -617,16 +694,24 @@ Definition run_body (pr : peer_state) (s : sysid) (o : frame_oracle) : peer_stat
     | SCliCreated => entity_created false pr k last
     | SCliParented => entity_parented_client pr last
     | SCliReact => react_on_changed_components false pr
-    | SCliMat => react_on_changed_materials false pr
-    | SCliImg | SCliMesh | SCliAudio => pr
+    | SCliMat => react_on_changed_assets false KMaterial pr
+    | SCliImg => react_on_changed_assets false (KClass AImage) pr
+    | SCliMesh => react_on_changed_assets false (KClass AMesh) pr
+    | SCliAudio => react_on_changed_assets false (KClass AAudio) pr
     | SCliPoll => match n_cli_transport pr with
                   | Some (h, _) => client_poll pr k h (fo_cli_poll o)
                   | None => pr
                   end
-    | SProcMesh | SProcImage | SProcAudio => pr
+    | SProcMesh => process_assets pr AMesh (fo_downloads o)
+    | SProcImage => process_assets pr AImage (fo_downloads o)
+    | SProcAudio => process_assets pr AAudio (fo_downloads o)
     | SDetect t => sync_detect pr t last
     | SSync => pr
-    | SApp _ => pr
+    | SApp n =>
+        (* an application system placed by the scheduler like any unordered system: issues its commands *)
+        let mine := filter (fun x : N * cmd => x.1 =? n) (p_app_cmds pr) in
+        let pr := pr <| p_app_cmds := filter (fun x : N * cmd => negb (x.1 =? n)) (p_app_cmds pr) |> in
+        foldl (fun pr x => push_cmd pr k x.2) pr mine
     end in
   end_run pr k this.
 
@@ -670,10 +755,7 @@ Definition run_system (pr : peer_state) (s : sysid) (o : frame_oracle) : peer_st
 
 (* PreUpdate: renet update + transport receive, as reported by the oracle *)
 Definition pre_update (pr : peer_state) (o : frame_oracle) : peer_state :=
-  let pr := foldl (fun pr '(connected, c) =>
-                     if (connected : bool) then pr <| n_clients := removeN c (n_clients pr) ++ [c] |>
-                     else pr <| n_clients := removeN c (n_clients pr) |>) pr (fo_conn_events o) in
-  let pr := pr <| n_srv_events := n_srv_events pr ++ fo_conn_events o |> in
+  let pr := pr <| n_clients := fo_clients o |> <| n_srv_events := n_srv_events pr ++ fo_conn_events o |> <| n_kicked := [] |> in
   match fo_status o with
   | Some st => pr <| n_status := st |>
   | None => pr
@@ -696,7 +778,7 @@ Definition state_transition (pr : peer_state) : peer_state :=
 
 (* Last: asset events queued during this frame become readable *)
 Definition last_schedule (pr : peer_state) : peer_state :=
-  pr <| a_mat_ready := a_mat_ready pr ++ a_mat_events pr |> <| a_mat_events := [] |>.
+  pr <| a_ready := a_ready pr ++ a_events pr |> <| a_events := [] |>.
 
 Definition frame (pr : peer_state) (o : frame_oracle) : peer_state :=
   match p_panic pr with
@@ -719,7 +801,9 @@ Inductive app_op :=
 | OWrite (e : ent) (t : tyid) (v : value)                          (* insert or mutate *)
 | OExclude (e : ent) (t : tyid) (on : bool)
 | OSetParent (c p : ent)
-| OAddMaterial (a : uuid) (v : N)
+| OAddAsset (k : akind) (a : uuid) (v : N)                          (* Assets<T>::insert(uuid, content) *)
+| OPromote (c : peer)                                               (* send_event(PromoteToHostEvent { id: c }) *)
+| OAppCmd (n : N) (c : cmd)                                         (* application system n issues command c at its next run *)
 | OSetup (host : bool) (target : peer)                             (* add ServerPlugin / ClientPlugin *)
 | OSwitches (mat mesh audio : bool)
 | ORemoveTransports
@@ -740,8 +824,9 @@ Definition app_step (pr : peer_state) (op : app_op) : peer_state :=
   | OExclude e t on =>
       upd_ent pr e (fun en => en <| en_excl := if on then t :: removeN t (en_excl en) else removeN t (en_excl en) |>)
   | OSetParent c p => if alive pr c then add_child pr p c else pr
-  | OAddMaterial a v =>
-      pr <| a_materials := <[a := v]> (a_materials pr) |> <| a_mat_events := a_mat_events pr ++ [(a, v)] |>
+  | OAddAsset k a v => insert_asset pr k a v
+  | OPromote c => pr <| n_promote_events := n_promote_events pr ++ [c] |>
+  | OAppCmd n c => pr <| p_app_cmds := p_app_cmds pr ++ [(n, c)] |>
   | OSetup host target =>
       let pr := pr <| n_setup := true |> in
       if host then pr <| n_srv_transport := Some now |>
@@ -771,7 +856,7 @@ Definition msg_keys (m : msg) : list N :=
   | MSpawn u | MDelete u => [u]
   | MComp u _ v => u :: match v with VMapper joints _ => joints | _ => [] end
   | MParented c p => [c; p]
-  | MMaterial a _ | MAsset _ a _ _ => [a]
+  | MMaterial a _ | MAsset _ a _ => [a]
   | MPromote | MNewHost _ | MReqInit | MFinInit => []
   end.
 Definition control_msg (m : msg) : bool :=
